@@ -114,7 +114,8 @@ theorem inv_start (inp : Bytes) : Inv ({ inp := inp } : L) :=
     inside the input, `line` true, `lastnl` true or stale in the classified way, all tokens so far
     right. -/
 theorem skipWhiteSpace_keeps_invariant (l : L) (h : Inv l) (hok : (skipWhiteSpace l).2 = true) :
-    Inv (skipWhiteSpace l).1 ∧ Ready (skipWhiteSpace l).1 := sws_inv_ready l h hok
+    Inv (skipWhiteSpace l).1 ∧ Ready (skipWhiteSpace l).1 :=
+  ⟨(sws_inv_ready l h hok).1, (sws_inv_ready l h hok).2.1⟩
 
 example : Inv (skipWhiteSpace { inp := #[32, 10, 97] }).1 ∧ Ready (skipWhiteSpace { inp := #[32, 10, 97] }).1 :=
   skipWhiteSpace_keeps_invariant _ (inv_start _) (by decide)
@@ -158,7 +159,8 @@ theorem lexer_pos_invariant_partial (input : List Nat) :
     Inv ({ inp := input.toArray } : L) ∧
     ∀ l : L, Inv l → Ready l → (lexToken l).2 = Next.token → (skipWhiteSpace (lexToken l).1).2 = true →
       Inv (skipWhiteSpace (lexToken l).1).1 ∧ Ready (skipWhiteSpace (lexToken l).1).1 :=
-  ⟨inv_start _, fun l h hr ht hs => sws_inv_ready _ ((lexToken_inv l h hr).2.1 ht) hs⟩
+  ⟨inv_start _, fun l h hr ht hs =>
+    ⟨(sws_inv_ready _ ((lexToken_inv l h hr).2.1 ht) hs).1, (sws_inv_ready _ ((lexToken_inv l h hr).2.1 ht) hs).2.1⟩⟩
 
 /-- **token_positions_true_partial.** For every input and every token the lexer model emits
     (comments and the error token included, EOF excluded — it has no first character): the
